@@ -38,3 +38,17 @@ func H_C05_rejected_plain_pq() {
 		vAssert("C05.rejected.plain-pq.wait-returns", waited)
 	})
 }
+
+// ---- C05 / C08 (mechanism): the stream of a result / error batch is created with room for every item of the batch
+// (helpers.NewResponse gives exactly the requested buffer: H_C05_response_buffer), so a finishing item never
+// blocks on an undrained stream.
+func H_C05_batch_stream_sized() {
+	_, q := mResultWorker(func(j Job[int]) (int, error) { return 0, nil }, 1, 1)
+	g := q.AddAll(hRejItems)
+	vAssert("C05.batch-stream.sized-result", cap(g.Results()) == len(hRejItems))
+	_, eq := mErrWorker(func(j Job[int]) error { return nil }, 1, 1)
+	eg := eq.AddAll(hRejItems)
+	vAssert("C05.batch-stream.sized-err", cap(eg.Errs()) == len(hRejItems))
+	vPrologueEnd()
+	vReach("C05.batch-stream.end")
+}
